@@ -5,6 +5,7 @@
     statement renders the property, and how the model is tied to /repo, is in DESIGN.md. *)
 From CB Require Import ProofLib Spec MonitorSound Results.
 From CB Require Import Inv_combine Inv_share.
+From CB Require Import Chain Programs.
 
 Theorem C04_map (f : val -> val) p (c : cfg (map_op f)) :
   std p -> reach p g_std c -> forall i, sub_once i (trace c) /\ talkback_only_live i (trace c) /\ stop_once i (trace c) /\ no_pull_outside i (trace c).
@@ -59,3 +60,14 @@ Theorem C04_combine (n : nat) p (c : cfg (combine_op n)) :
   1 <= n -> std p -> reach p g_std c -> (forall i, ~ In (VSubTwice i) (viols (ms c)) /\ ~ In (VSubAfterOver i) (viols (ms c)) /\ ~ In (VUpEarly i) (viols (ms c)) /\ ~ In (VStopAfterStop i) (viols (ms c)) /\ ~ In (VOrphan i) (viols (ms c))).
 Proof. exact (@combine_c04 n p c). Qed.
 Print Assumptions C04_combine.
+
+(** ** programs: every component of every linear pipeline
+    [pipe!(from_iter(it), stages.. [, for_each(f)])] with stages from map/filter/scan/take/skip, of any
+    length, in every reachable state of the wired components (composition theorem, Chain.v/Programs.v) *)
+Theorem C04_pipeline it stages b N :
+  Forall ustage_ok stages -> net_reach (pipe_net it stages b) N ->
+  forall i n, nth_error (nodes N) i = Some n ->
+  forall j, sub_once j (ntrace n) /\ talkback_only_live j (ntrace n) /\ stop_once j (ntrace n)
+            /\ no_pull_outside j (ntrace n).
+Proof. exact (fun Hok Hr i n Hn => pk_c04 (proj1 (@pipeline_protocol it stages b N Hok Hr i n Hn))). Qed.
+Print Assumptions C04_pipeline.
